@@ -212,3 +212,4 @@ import reg_q  # noqa: E402,F401
 import reg_util  # noqa: E402,F401
 import reg_conc  # noqa: E402,F401
 import reg_c20  # noqa: E402,F401
+import reg_c09  # noqa: E402,F401
